@@ -27,16 +27,19 @@ struct LeakScope {
     size_t before;
     const char *who;
     explicit LeakScope(const char *w) : before(__sanitizer_get_current_allocated_bytes()), who(w) {}
-    // call after the parsed object was released with its documented free function
-    void check(const std::string &detail = "") {
+    // Call after the parsed object was released with its documented free function.  Returns true when
+    // LeakSanitizer confirms unreachable memory (its report is already on stderr).  No allocation may
+    // happen between the free call and this call (build the failure message only afterwards).
+    bool leaked() {
         size_t after = __sanitizer_get_current_allocated_bytes();
-        if (after <= before) return;
-        if (__lsan_do_recoverable_leak_check())
-            VF_FAIL(std::string("leak:") + who, "%zu bytes still allocated after free (LeakSanitizer report above) %s",
-                    after - before, detail.c_str());
+        if (after <= before) return false;
+        if (__lsan_do_recoverable_leak_check()) return true;
         before = after; // reachable growth (library global / harness bookkeeping): not a leak
+        return false;
     }
 };
+#define C09_LEAK_CHECK(L, ...) \
+    do { if ((L).leaked()) VF_FAIL(std::string("leak:") + (L).who, "memory still allocated after free (LeakSanitizer report above): " __VA_ARGS__); } while (0)
 
 // ------------------------------------------------------------------------------------------------ memory
 inline bool addressable(const void *p, size_t n) {
